@@ -348,6 +348,13 @@ class Execution:
             if "C01" in ex.mon:
                 ex.check_c01_candidate(handler)
             ex.candidate[handler] = (time.quotient, time.remainder)
+            if "C07" in ex.mon and ex.last_time is not None and time.quotient != math.inf:
+                # event times never decrease: no candidate may lie before the time the run has already reached
+                # (beyond rounding: a displacement of -6e-16 at a grazing contact is the float tie N2)
+                back = (ex.last_time[0] - time.quotient) + (ex.last_time[1] - time.remainder)
+                if back > 1e-12 * max(1.0, abs(ex.last_time[0])):
+                    ex.V("C07:candidate-in-past", "%s proposes an event at %r, %.3e before the time %r the run has "
+                         "reached" % (type(handler).__name__, (time.quotient, time.remainder), back, ex.last_time))
             if handler in ex.pending:
                 ex.pending[handler][3] = (time.quotient, time.remainder)
             return real_push(time, handler)
